@@ -165,6 +165,71 @@ theorem no_panic {ops σ evs op} (h : GReach ops σ evs) (hwb : op.wb σ = true)
   obtain ⟨⟨σ', e⟩, hr⟩ := gstep_no_panic (greach_ginv h) hwb
   exact ⟨σ', e, hr⟩
 
+/-- The same three facts with the guard stated on the history alone (`Op.twb`, no model state): every call is set
+up with a query id never used before on this connection, and a response / RPC error for `q` arrives only after
+the request `q` was written to the connection (or for an id the client never used). -/
+theorem inFlight_eq_sentCount_trace {ops σ evs} (h : TReach ops σ evs) : σ.inFlight = sentCount σ.calls :=
+  inFlight_eq_sentCount h.greach
+
+theorem no_panic_trace {ops σ evs} {op : Op} (h : TReach ops σ evs) (hwb : op.twb ops evs) :
+    ∃ σ' e, step σ op = .ok (σ', e) :=
+  no_panic h.greach (twb_wb (treach_inv h) hwb)
+
+/-- under that guard a request that is still registered as unsent has never been written to the connection,
+and everything written belongs to a call that was set up (so a well-behaved peer has nothing else to answer) -/
+theorem unsent_never_written {ops σ evs k c} (h : TReach ops σ evs) (hm : (k, c) ∈ σ.calls) (hu : c.unsent = true) :
+    Ev.pkt (.req k) ∉ evs := (treach_inv h).unsentNotWritten k c hm hu
+
+theorem written_was_set_up {ops σ evs q} (h : TReach ops σ evs) (hm : Ev.pkt (.req q) ∈ evs) : q ∈ setupQids ops :=
+  (treach_inv h).writtenSetup q hm
+
+/-- **a request is written at most once** (so a well-behaved server produces at most one response per call):
+under the history-level guard, `rpcInvokeReqHeader{q}` goes to the connection at most once in the whole history -/
+theorem request_written_at_most_once {ops σ evs} (h : TReach ops σ evs) (q : Nat) :
+    evs.count (Ev.pkt (.req q)) ≤ 1 := treach_written_once h q
+
+/-- graceful shutdown (`rpcServerWantsFin` received): when the last in-flight call of a shut-down connection
+finishes or is cancelled, that very critical section takes the connection out to close it -/
+theorem shutdown_closes_when_drained {σ σ' e} {op : Op} (hs : step σ op = .ok (σ', e))
+    (hop : (∃ q, op = .cancel q) ∨ (∃ q p, op = .resp q p) ∨ (∃ q p, op = .rerr q p))
+    (hc : σ.hasConn = true) (hsd : σ.isShutdown = true) (hn : σ'.inFlight = 0) (hchg : σ'.inFlight ≠ σ.inFlight) :
+    Ev.closeConn ∈ e ∧ σ'.hasConn = false := by
+  have fin : ∀ q r, finishStep σ q r = .ok (σ', e) → Ev.closeConn ∈ e ∧ σ'.hasConn = false := by
+    intro q r h
+    unfold finishStep at h
+    split at h
+    · simp only [Except.ok.injEq, Prod.mk.injEq] at h; obtain ⟨rfl, -⟩ := h; exact absurd rfl hchg
+    · dsimp only at h
+      split at h
+      · simp at h
+      · split at h
+        · simp only [Except.ok.injEq, Prod.mk.injEq] at h; obtain ⟨rfl, rfl⟩ := h; simp
+        · rename_i hcond
+          simp only [Except.ok.injEq, Prod.mk.injEq] at h; obtain ⟨rfl, rfl⟩ := h
+          simp only at hn
+          simp [hc, hsd, hn] at hcond
+  rcases hop with ⟨q, rfl⟩ | ⟨q, p, rfl⟩ | ⟨q, p, rfl⟩
+  · simp only [step] at hs
+    unfold cancelStep at hs
+    split at hs
+    · simp only [Except.ok.injEq, Prod.mk.injEq] at hs; obtain ⟨rfl, -⟩ := hs; exact absurd rfl hchg
+    · dsimp only at hs
+      split at hs
+      · simp only [Except.ok.injEq, Prod.mk.injEq] at hs; obtain ⟨rfl, -⟩ := hs; exact absurd rfl hchg
+      · split at hs
+        · simp at hs
+        · split at hs
+          · rename_i hcond; simp [hc] at hcond
+          · split at hs
+            · simp only [Except.ok.injEq, Prod.mk.injEq] at hs; obtain ⟨rfl, rfl⟩ := hs; simp
+            · rename_i hcond
+              split at hs <;>
+              · simp only [Except.ok.injEq, Prod.mk.injEq] at hs; obtain ⟨rfl, rfl⟩ := hs
+                simp only at hn
+                simp [hsd, hn] at hcond
+  · exact fin q _ (by simpa [step] using hs)
+  · exact fin q _ (by simpa [step] using hs)
+
 /-- The guard is needed, i.e. the unguarded statement is false *for the code as it is*: a response that
 arrives for a registered call whose request was not yet handed to the send loop is accounted by `finishCall`
 as if it had been sent (the `cctx.req != nil` case is commented out in the source), `inFlight` becomes −1 and
@@ -321,6 +386,45 @@ theorem greach_of_grun_aux {ops1 σ1 e1} (h1 : GReach ops1 σ1 e1) :
 theorem greach_of_grun {ops σ evs} (h : grun Conn.init ops = some (σ, evs)) : GReach ops σ evs := by
   simpa using greach_of_grun_aux .init h
 
+/-- decidable form of `Op.twb` -/
+def twbB (ops : List Op) (evs : List Ev) : Op → Bool
+  | .setup _ q _ _ _ => !(setupQids ops).contains q
+  | .resp q _ => evs.contains (.pkt (.req q)) || !(setupQids ops).contains q
+  | .rerr q _ => evs.contains (.pkt (.req q)) || !(setupQids ops).contains q
+  | _ => true
+
+theorem twb_of_twbB {ops evs} {op : Op} (h : twbB ops evs op = true) : op.twb ops evs := by
+  cases op <;> simp_all [Op.twb, twbB]
+
+/-- history-level guarded execution (decidable) -/
+def trun (ops : List Op) (σ : Conn) (evs : List Ev) : List Op → Option (Conn × List Ev)
+  | [] => some (σ, evs)
+  | op :: rest =>
+    if twbB ops evs op then
+      match step σ op with
+      | .error _ => none
+      | .ok (σ1, e1) => trun (ops ++ [op]) σ1 (evs ++ e1) rest
+    else none
+
+theorem treach_of_trun {ops0 σ0 e0} (h0 : TReach ops0 σ0 e0) :
+    ∀ {rest σ evs}, trun ops0 σ0 e0 rest = some (σ, evs) → TReach (ops0 ++ rest) σ evs := by
+  intro rest
+  induction rest generalizing ops0 σ0 e0 with
+  | nil => intro σ evs h; simp only [trun, Option.some.injEq, Prod.mk.injEq] at h; obtain ⟨rfl, rfl⟩ := h; simpa using h0
+  | cons op t ih =>
+    intro σ evs h
+    simp only [trun] at h
+    by_cases hok : twbB ops0 e0 op = true
+    · simp only [hok, if_true] at h
+      cases hs : step σ0 op with
+      | error p => simp [hs] at h
+      | ok r =>
+        obtain ⟨σa, ea⟩ := r
+        simp only [hs] at h
+        have := ih (.snoc h0 (twb_of_twbB hok) hs) h
+        simpa using this
+    · simp [hok] at h
+
 /-- three concurrent calls, one answered, one cancelled after being sent, one failed by the disconnect -/
 def demoOps : List Op :=
   [.connect, .setup 1 5 false .none false, .setup 2 6 false .future true, .setup 3 7 true .none false, .send,
@@ -329,6 +433,13 @@ def demoOps : List Op :=
 def demoVal : Conn × List Ev := (grun Conn.init demoOps).get (by rfl)
 
 theorem demo_eq : grun Conn.init demoOps = some demoVal := (Option.some_get _).symm
+
+/-- the same history satisfies the history-level guard -/
+def demoValT : Conn × List Ev := (trun [] Conn.init [] demoOps).get (by rfl)
+
+example : ∃ σ evs, TReach demoOps σ evs := by
+  have h : trun [] Conn.init [] demoOps = some demoValT := (Option.some_get _).symm
+  exact ⟨demoValT.1, demoValT.2, treach_of_trun (ops0 := []) .init h⟩
 
 example : ∃ σ evs, GReach demoOps σ evs ∧ OwnersDistinct demoOps ∧
     Ev.deliver 2 true 6 (.resp 6 66) ∈ evs ∧ Ev.cancelled 1 5 false ∈ evs ∧ Ev.deliver 3 false 7 .sideEffect ∈ evs := by
